@@ -1910,3 +1910,19 @@ Proof.
     unfold step. change (beq N_ALLOW N_HIDE) with false. change (beq N_ALLOW N_ALLOW) with true. cbv iota.
     unfold do_allow. rewrite Hy. cbn. auto.
 Qed.
+
+(** [handle_vary_missing] for an [allow-ips] file: whatever item of whatever earlier world the lookup found, the answer computed now
+    (for a listed or an unlisted client) is not pushed into it — the cache is left as the lookup left it *)
+Lemma allow_ips_variant_never_pushed_lemma :
+  forall (fix_errline cors : bool) (fs : bytes -> option bytes) (errpage : N -> bytes) (tmpl : list bytes -> bytes -> bytes)
+         cache_on ims_on fix_svary fix_qmkey sfilter refuses vary_tuple vary_header c1 now r ov k e t c,
+    served_file (rq_path r) = Ok (Some t) -> fs t = Some c -> is_hidden t c = false -> is_allow_ips c = true ->
+    get_or_head (rq_method r) = true -> (cors && is_cors_fail ov) = false ->
+    fst (fst (vary_missingX unit (compute_g true true fix_errline cors fs errpage tmpl) cache_on ims_on true fix_svary fix_qmkey sfilter
+                            (negotiate_g errpage refuses) vary_tuple vary_header c1 tt now r ov true k e)) = (c1, tt).
+Proof.
+  intros fix_errline cors fs errpage tmpl cache_on ims_on fix_svary fix_qmkey sfilter refuses vary_tuple vary_header c1 now r ov k e t c
+         Es Ef Hh Ha Hm Hc.
+  destruct (allow_ips_never_stored_lemma fix_errline cors fs errpage tmpl r ov t c cache_on sfilter Es Ef Hh Ha Hm Hc) as [_ Hns].
+  unfold vary_missingX. cbn [compute_g]. rewrite Hns. cbn [andb fst]. reflexivity.
+Qed.
